@@ -233,6 +233,7 @@ def aggregated (a : Agg) (sel : List (Series × List (Nat × Nat))) : Option (Li
 
 Classes of RECORDED deviations (`known:` lines): `absent-label-matcher` (matchers that an absent label satisfies),
 `value-has-comma`, `empty-group-key`, `name-regex-same-tagset` (aggregations only).
+Repaired as well (pending c09-14 / c09-15), still computed: `agg-value-has-brace`, `binop-label-order`, `binop-trailing-comma`.
 Classes of REPAIRED deviations (`fixed:` lines) are still computed, so that a disagreement in such a class is
 reported under its old name should the defect return: `tsid-preimage-collision`, `no-tags`,
 `json-escaped-tag-value`, `same-label-twice`, `regex-on-empty-value`, `tag-value-over-64k`, `matcher-on-missing-key`,
